@@ -47,6 +47,11 @@ static inline double vf_bits_f64(uint64_t b) { union { uint64_t i; double f; } u
 #define VF_ISFINITE_F32(x) (((vf_f32_bits(x) >> 23) & 0xffu) != 0xffu)
 #define VF_ISFINITE_F64(x) (((vf_f64_bits(x) >> 52) & 0x7ffu) != 0x7ffu)
 
+/* powers of ten (ghost table for the digit-count contracts) */
+static const uint64_t vf_p10[20] = {1ULL, 10ULL, 100ULL, 1000ULL, 10000ULL, 100000ULL, 1000000ULL, 10000000ULL, 100000000ULL, 1000000000ULL,
+  10000000000ULL, 100000000000ULL, 1000000000000ULL, 10000000000000ULL, 100000000000000ULL, 1000000000000000ULL, 10000000000000000ULL,
+  100000000000000000ULL, 1000000000000000000ULL, 10000000000000000000ULL};
+
 #ifdef VF_CBMC
 #define ASSUME(c) __CPROVER_assume(c)
 #define CHECK(c, name) __CPROVER_assert((c), "POST:" name)
